@@ -1604,8 +1604,15 @@ func (env *Env) callHooks(fobj *types.Func, recv *Val, args []Val, st *State, ca
 		}
 	}
 	for k, ac := range con.AtCalls {
-		if ac.Callee != name {
+		callee, occ, hasOcc := strings.Cut(ac.Callee, "@")
+		if callee != name {
 			continue
+		}
+		if hasOcc {
+			// Name@N: only the N-th call of that name in source order
+			if fmt.Sprint(c.callOccurrence(name, call)) != occ {
+				continue
+			}
 		}
 		ie := c.invEnv(env, call.Pos(), nil)
 		for i, a := range args {
@@ -1618,4 +1625,35 @@ func (env *Env) callHooks(fobj *types.Func, recv *Val, args []Val, st *State, ca
 		c.addObl(st, fmt.Sprintf("atcall%d:%s#%d", c.ordinal("atcall/"+name), name, k), "atcall", g, c.e.pos(call.Pos()), "atcall "+name+": "+ac.Clause.Text, nil)
 	}
 	st.calls = append(st.calls, name)
+}
+
+// callOccurrence: index of this call among the calls of functions/methods called `name`
+// in the source order of the function under verification.
+func (c *Ctx) callOccurrence(name string, call *ast.CallExpr) int {
+	if c.callOcc == nil {
+		c.callOcc = map[*ast.CallExpr]int{}
+		counts := map[string]int{}
+		if c.fi.Decl != nil && c.fi.Decl.Body != nil {
+			ast.Inspect(c.fi.Decl.Body, func(n ast.Node) bool {
+				if ce, ok := n.(*ast.CallExpr); ok {
+					nm := ""
+					switch f := unparen(ce.Fun).(type) {
+					case *ast.Ident:
+						nm = f.Name
+					case *ast.SelectorExpr:
+						nm = f.Sel.Name
+					}
+					if nm != "" {
+						c.callOcc[ce] = counts[nm]
+						counts[nm]++
+					}
+				}
+				return true
+			})
+		}
+	}
+	if k, ok := c.callOcc[call]; ok {
+		return k
+	}
+	return -1
 }
